@@ -25,7 +25,7 @@ static CASE_STARTED_MS: AtomicU64 = AtomicU64::new(0);
 static LAST_PANIC: Mutex<String> = Mutex::new(String::new());
 
 pub const TARGETS: [&str; 6] = ["request", "response", "frame", "wsmsg", "json", "config"];
-pub const FAMILIES: [&str; 11] = ["trunc-eof", "trunc-reset", "subst", "bitflip", "deldup", "lengths", "utf8-insert", "bad-utf8", "nesting", "short-exhaustive", "random"];
+pub const FAMILIES: [&str; 12] = ["trunc-eof", "trunc-reset", "subst", "bitflip", "deldup", "span-del", "lengths", "utf8-insert", "bad-utf8", "nesting", "short-exhaustive", "random"];
 
 const HUGE: [&str; 14] = ["0", "1", "65535", "65536", "16777216", "2147483648", "4294967296", "1099511627776", "9223372036854775807", "9223372036854775808", "18446744073709551615", "18446744073709551616", "99999999999999999999", "-1"];
 const HUGE_HEX: [&str; 8] = ["0", "1", "ffff", "10000", "7fffffff", "ffffffff", "7fffffffffffffff", "ffffffffffffffff"];
@@ -88,6 +88,7 @@ fn n_cases(target: &str, seed: &[u8], family: &str, tier: Tier) -> usize {
         "subst" => n * SUBST.len(),
         "bitflip" => n * 8,
         "deldup" => seed.iter().filter(|c| b"\r\n: ,;{}\"".contains(c)).count() * 2,
+        "span-del" => n * SPAN_MAX,
         "lengths" => {
             if target == "frame" || target == "wsmsg" {
                 FRAME_LENS.len()
@@ -131,6 +132,9 @@ fn seed_is_first(target: &str, seed: &[u8]) -> bool {
 }
 
 const SUBST: [u8; 16] = [b'\r', b'\n', b':', b' ', b'%', b'"', b'{', b'}', 0, 0x80, 0xff, b'0', b'9', b'-', b'\t', b'e'];
+/// Longest contiguous span removed by the span-del family (every span of 1..=SPAN_MAX bytes at
+/// every offset).
+const SPAN_MAX: usize = 24;
 const FRAME_LENS: [u64; 14] = [0, 1, 125, 126, 127, 65535, 65536, 1 << 20, 1 << 28, 1 << 31, 1 << 32, 1 << 40, (1 << 63) - 1, u64::MAX];
 
 fn digit_runs(seed: &[u8]) -> Vec<(usize, usize)> {
@@ -181,6 +185,20 @@ fn short_strings(target: &str) -> Vec<Vec<u8>> {
         }
         out.extend(next.iter().cloned());
         frontier = next;
+    }
+    if target == "config" {
+        // the same alphabet one token longer inside an open `server {` section, where values,
+        // routes, hosts and includes are actually parsed
+        let mut next = Vec::new();
+        for f in &frontier {
+            for a in &alpha {
+                let mut s = f.clone();
+                s.extend_from_slice(a);
+                next.push(s);
+            }
+        }
+        let inner: Vec<Vec<u8>> = out.iter().chain(next.iter()).map(|t| [b"server {\n".as_slice(), t.as_slice()].concat()).collect();
+        out.extend(inner);
     }
     c.lock().unwrap().insert(target.to_string(), out.clone());
     out
@@ -241,6 +259,10 @@ fn make_case(target: &str, seed: &[u8], family: &str, k: usize, rng_seed: u64) -
             } else {
                 (splice(seed, i, i, &seed[i..(i + 1).min(n)]), None)
             }
+        }
+        "span-del" => {
+            let (pos, l) = (k / SPAN_MAX, k % SPAN_MAX + 1);
+            (splice(seed, pos.min(n), (pos + l).min(n), b""), None)
         }
         "lengths" => {
             if target == "frame" || target == "wsmsg" {
@@ -492,7 +514,7 @@ impl Prop for C03 {
         false
     }
     fn rule(&self) -> &'static str {
-        "Per target (HTTP request parser, HTTP response parser, WebSocket frame decoder, WebSocket message reader blocking and non-blocking over a simulated socket, JSON parser, config parser incl. include files) and per seed message, the fault families are enumerated completely: EOF at EVERY offset, ConnectionReset at every offset, every single-byte substitution from a 16-symbol protocol alphabet at every offset, every single bit flip, each CR/LF/colon/space/comma/brace/quote deleted and doubled, every number in the message replaced by 22 boundary and huge decimal/hex values (frames: 14 claimed lengths up to 2^64-1 with 10 bytes of data), a 2/3/4-byte UTF-8 character and an invalid byte inserted at every position, nesting to depth 100000, all strings of up to 3-4 tokens over the protocol alphabets, plus seeded random edits; each case delivered all-at-once and one byte per read. Distinct non-trivial = distinct (target, seed, family, case) that differs from the valid seed; evaluations = parser calls."
+        "Per target (HTTP request parser, HTTP response parser, WebSocket frame decoder, WebSocket message reader blocking and non-blocking over a simulated socket, JSON parser, config parser incl. include files) and per seed message, the fault families are enumerated completely: EOF at EVERY offset, ConnectionReset at every offset, every single-byte substitution from a 16-symbol protocol alphabet at every offset, every single bit flip, each CR/LF/colon/space/comma/brace/quote deleted and doubled, every contiguous span of 1..24 bytes deleted at every offset, every number in the message replaced by 22 boundary and huge decimal/hex values (frames: 14 claimed lengths up to 2^64-1 with 10 bytes of data), a 2/3/4-byte UTF-8 character and an invalid byte inserted at every position, nesting to depth 100000, all strings of up to 3-4 tokens over the protocol alphabets (config: additionally all strings of up to 4 tokens inside an open `server {` section), plus seeded random edits; each case delivered all-at-once and one byte per read. Distinct non-trivial = distinct (target, seed, family, case) that differs from the valid seed; evaluations = parser calls."
     }
     fn assumptions(&self) -> Vec<String> {
         vec![
@@ -503,7 +525,7 @@ impl Prop for C03 {
         ]
     }
     fn expected_counters(&self) -> Vec<&'static str> {
-        vec!["c03.request", "c03.response", "c03.frame", "c03.wsmsg", "c03.json", "c03.config", "c03.family.trunc-eof", "c03.family.trunc-reset", "c03.family.lengths", "c03.family.utf8-insert", "c03.family.nesting", "c03.bytewise_deliveries", "c03.parser_returned_ok", "c03.parser_returned_err_or_ok"]
+        vec!["c03.request", "c03.response", "c03.frame", "c03.wsmsg", "c03.json", "c03.config", "c03.family.trunc-eof", "c03.family.trunc-reset", "c03.family.lengths", "c03.family.span-del", "c03.family.utf8-insert", "c03.family.nesting", "c03.bytewise_deliveries", "c03.parser_returned_ok", "c03.parser_returned_err_or_ok"]
     }
     fn real_vs_stub(&self) -> (Vec<&'static str>, Vec<&'static str>) {
         (
